@@ -415,6 +415,15 @@ def correspond(ctx):
     rule_level(ctx, rng, dis)
     wexpr_level(ctx, rng, dis)
     host_level(ctx, rng, dis)
+    # object-history fuzzer (hist.py) over the reweighting hosts: on a long-lived fitter whose caller re-uses its data buffer, the weights
+    # a call returns must be the ones an independent evaluation (the same call on a fresh fitter) gives
+    from . import hist, methods as M9
+    pool1 = [n for n, e in M9.registry(False).items() if 'weights' in e['params'] and e['module'] in ('whittaker', 'spline', 'morphological')]
+    pool2 = [n for n, e in M9.registry(True).items() if 'weights' in e['params'] and e['module'] in ('whittaker', 'spline')]
+    for spec, f in hist.campaign(ctx, ctx.np_rng(), 'fresh', 50 if ctx.thorough else 18, 16 if ctx.thorough else 5, pool1=pool1, pool2=pool2):
+        dis.append(Disagreement('c09.fuzz', f'fuzz:{spec["steps"][-1]["method"]}',
+                                f'history on one fitter: {hist.describe(spec)[:700]} — call {f[0] + 1}: {f[2]} (the weights / baseline are not what an independent '
+                                f'evaluation of the documented rule on a fresh fitter gives)', {'kind': 'fuzz', 'spec': spec}, True))
     return dis
 
 
@@ -424,4 +433,9 @@ def search(ctx, hints, lean_failed):
 
 
 def replay(ctx, data):
+    r = data.get('replay', {})
+    if r.get('kind') == 'fuzz':
+        from . import hist
+        f = [x for x in hist.run(r['spec'], want=('fresh',)) if x[1] == 'fresh']
+        return f'call {f[0][0] + 1}: {f[0][2]}' if f else None
     return None
